@@ -260,7 +260,7 @@ def mutable_fn_contracts(layouts, s, relpath, stub=False):
         w('\trequires self.validity is Some || self.latest_finalized_frame is Some,')
     w('\tensures res == self.len_spec(),')
     w('//@end')
-    w('//@fn %s | impl %s | push_null | %s' % (relpath, s, 'stub' if stub else ''))
+    w('//@fn %s | impl %s | push_null%s' % (relpath, s, st))
     w('\trequires old(self).wf(version),')
     w('\tensures final(self).wf(version),')
     w('\t\tfinal(self).len_spec() == old(self).len_spec() + 1,')
@@ -279,5 +279,239 @@ def mutable_fn_contracts(layouts, s, relpath, stub=False):
     w('\trequires self.wf(version), i < self.len_spec(),')
     w('\tensures self.row_eq(res, i as int) /*[%s.transpose_one]*/,' % s)
     w('//@end')
+    w('}')
+    return '\n'.join(out)
+
+
+# --------------------------------------------------------------------------------------------
+# immutable side: write / size / transpose_one / From<mutable::S>
+def immutable_specs(layouts, s, with_from=True):
+    L = layouts[s]['fields']
+    out = []
+    w = out.append
+    w('impl %s {' % s)
+    w('\tpub open spec fn size_spec(v: Version) -> int {')
+    terms = []
+    for f in L:
+        if f.kind == 'validity':
+            continue
+        t = str(f.size)
+        terms.append('(if %s { %s } else { 0int })' % (ge(f.since), t) if f.opt else t + 'int')
+    w('\t\t' + ' + '.join(terms or ['0int']))
+    w('\t}')
+    if s == 'End':
+        w('\tpub open spec fn len_spec(&self) -> nat { match self.validity { Some(b) => b@.len(), None => match self.latest_finalized_frame { Some(c) => c@.len(), None => 0 } } }')
+    else:
+        w('\tpub open spec fn len_spec(&self) -> nat { %s }' % first_col(layouts, s))
+    w('\tpub open spec fn wf(&self, v: Version) -> bool {')
+    for f in L:
+        if f.kind == 'validity':
+            w('\t\t&&& (self.validity is Some ==> self.validity->Some_0@.len() == self.len_spec())')
+        elif f.kind == 'prim' and not f.opt:
+            w('\t\t&&& self.%s@.len() == self.len_spec()' % f.name)
+        elif f.kind == 'prim':
+            w('\t\t&&& (self.%s is Some) == %s' % (f.name, ge(f.since)))
+            w('\t\t&&& (self.%s is Some ==> self.%s->Some_0@.len() == self.len_spec())' % (f.name, f.name))
+        elif f.kind == 'sub' and not f.opt:
+            w('\t\t&&& self.%s.wf(v) && self.%s.len_spec() == self.len_spec()' % (f.name, f.name))
+        else:
+            w('\t\t&&& (self.%s is Some) == %s' % (f.name, ge(f.since)))
+            w('\t\t&&& (self.%s is Some ==> self.%s->Some_0.wf(v) && self.%s->Some_0.len_spec() == self.len_spec())' % (f.name, f.name, f.name))
+    w('\t}')
+    # emit(acc, i, v): acc followed by the big-endian bytes of row i, fields in spec-table (offset) order
+    w('\tpub open spec fn emit(&self, acc: Seq<u8>, i: int, v: Version) -> Seq<u8> {')
+    k = 0
+    prev = 'acc'
+    for f in sorted([f for f in L if f.kind != 'validity'], key=lambda f: f.off):
+        k += 1
+        cur = 'a%d' % k
+        if f.kind == 'prim':
+            val = 'self.%s.values_spec()[i]' % f.name if not f.opt else 'self.%s->Some_0.values_spec()[i]' % f.name
+            e = '%s + bytes_%s(%s)' % (prev, f.ty, val)
+        else:
+            e = ('self.%s.emit(%s, i, v)' if not f.opt else 'self.%s->Some_0.emit(%s, i, v)') % (f.name, prev)
+        if f.opt:
+            e = 'if %s { %s } else { %s }' % (ge(f.since), e, prev)
+        w('\t\tlet %s = %s; /*[%s.emit.%s]*/' % (cur, e, s, f.name))
+        prev = cur
+    w('\t\t%s' % prev)
+    w('\t}')
+    w('\tpub open spec fn row_eq(&self, row: transpose::%s, i: int) -> bool {' % s)
+    for f in L:
+        lab = '/*[imm.%s.%s]*/' % (s, f.name)
+        if f.kind == 'validity':
+            continue
+        if f.kind == 'prim' and not f.opt:
+            w('\t\t&&& row.%s == self.%s.values_spec()[i] %s' % (f.name, f.name, lab))
+        elif f.kind == 'prim':
+            w('\t\t&&& row.%s == (match self.%s { Some(c) => Some(c.values_spec()[i]), None => None }) %s' % (f.name, f.name, lab))
+        elif f.kind == 'sub' and not f.opt:
+            w('\t\t&&& self.%s.row_eq(row.%s, i) %s' % (f.name, f.name, lab))
+        else:
+            w('\t\t&&& (self.%s is Some == row.%s is Some) && (self.%s is Some ==> self.%s->Some_0.row_eq(row.%s->Some_0, i)) %s' % (f.name, f.name, f.name, f.name, f.name, lab))
+    w('\t}')
+    if not with_from:
+        w('}')
+        return '\n'.join(out)
+    # same_columns(m, x): every column of the immutable struct has the view of the mutable one
+    w('\tpub open spec fn same_columns(m: mutable::%s, x: Self) -> bool {' % s)
+    for f in L:
+        lab = '/*[from.%s.%s]*/' % (s, f.name)
+        if f.kind == 'validity':
+            w('\t\t&&& (m.validity is Some == x.validity is Some) && (m.validity is Some ==> x.validity->Some_0@ == m.validity->Some_0@) %s' % lab)
+        elif f.kind == 'prim' and not f.opt:
+            w('\t\t&&& x.%s@ == m.%s@ && x.%s.values_spec() == m.%s.values_spec() %s' % (f.name, f.name, f.name, f.name, lab))
+        elif f.kind == 'prim':
+            w('\t\t&&& (m.%s is Some == x.%s is Some) && (m.%s is Some ==> x.%s->Some_0@ == m.%s->Some_0@ && x.%s->Some_0.values_spec() == m.%s->Some_0.values_spec()) %s' % ((f.name,) * 7 + (lab,)))
+        elif f.kind == 'sub' and not f.opt:
+            w('\t\t&&& %s::same_columns(m.%s, x.%s) %s' % (f.ty, f.name, f.name, lab))
+        else:
+            w('\t\t&&& (m.%s is Some == x.%s is Some) && (m.%s is Some ==> %s::same_columns(m.%s->Some_0, x.%s->Some_0)) %s' % (f.name, f.name, f.name, f.ty, f.name, f.name, lab))
+    w('\t}')
+    w('}')
+    return '\n'.join(out)
+
+
+def immutable_fn_contracts(layouts, s, rel_mod, rel_slippi, stub=False, only=('write', 'size', 'transpose_one', 'from')):
+    st = ' | stub' if stub else ''
+    out = []
+    w = out.append
+    w('impl %s {' % s)
+    if 'write' in only:
+        w('//@fn %s | impl %s | write | ret=res%s' % (rel_slippi, s, st))
+        w('\trequires self.wf(version), i < self.len_spec(),')
+        w('\tensures res is Ok ==> (*final(w)).written() == self.emit((*old(w)).written(), i as int, version) /*[%s.write.bytes]*/,' % s)
+        w('//@end')
+    if 'size' in only:
+        w('//@fn %s | impl %s | size | ret=res%s' % (rel_slippi, s, st))
+        w('\tensures res == %s::size_spec(version) /*[%s.size]*/,' % (s, s))
+        w('//@end')
+    if 'transpose_one' in only:
+        w('//@fn %s | impl %s | transpose_one | ret=res%s' % (rel_mod, s, st))
+        w('\trequires self.wf(version), i < self.len_spec(),')
+        w('\tensures self.row_eq(res, i as int) /*[imm.%s.transpose_one]*/,' % s)
+        w('//@end')
+    w('}')
+    if 'from' not in only:
+        return '\n'.join(out)
+    # Verus cannot use an impl's own from_spec while checking that impl's `from`: the trait method is a
+    # contract-only stub (its contract is FromSpecImpl below) and the real body is checked as a free function.
+    w('impl From<mutable::%s> for %s {' % (s, s))
+    w('//@fn %s | impl From<mutable::%s> for %s | from | ret=res | stub' % (rel_mod, s, s))
+    w('//@end')
+    w('}')
+    if not stub:
+        w('//@fn %s | impl From<mutable::%s> for %s | from | ret=res | free=%s | twin=__%s' % (rel_mod, s, s, s, s))
+        w('\tensures res == <%s as vstd::std_specs::convert::FromSpec<mutable::%s>>::from_spec(x) /*[from.%s.fieldwise]*/,' % (s, s, s))
+        w('//@end')
+        # view preservation follows from the field-wise spec (pure spec lemma, sub-structs by their own lemma)
+        w('pub proof fn lemma_from_same_columns_%s(m: mutable::%s)' % (s, s))
+        w('\tensures %s::same_columns(m, <%s as vstd::std_specs::convert::FromSpec<mutable::%s>>::from_spec(m)) /*[from.%s]*/,' % (s, s, s, s))
+        w('{')
+        for f in layouts[s]['fields']:
+            if f.kind == 'sub' and not f.opt:
+                w('\tlemma_from_same_columns_%s(m.%s);' % (f.ty, f.name))
+            elif f.kind == 'sub':
+                w('\tif m.%s is Some { lemma_from_same_columns_%s(m.%s->Some_0); }' % (f.name, f.ty, f.name))
+        w('}')
+    # the spec of the conversion: every field converted by its own conversion, nothing else (from the real field list)
+    w('impl vstd::std_specs::convert::FromSpecImpl<mutable::%s> for %s {' % (s, s))
+    w('\topen spec fn obeys_from_spec() -> bool { true }')
+    w('\topen spec fn from_spec(m: mutable::%s) -> %s {' % (s, s))
+    parts = []
+    for f in layouts[s]['fields']:
+        if f.kind == 'validity':
+            conv = lambda e: '<Bitmap as vstd::std_specs::convert::FromSpec<MutableBitmap>>::from_spec(%s)' % e
+            parts.append((f.name, 'match m.validity { Some(c) => Some(%s), None => None }' % conv('c')))
+            continue
+        if f.kind == 'prim':
+            conv = lambda e, t=f.ty: '<PrimitiveArray<%s> as vstd::std_specs::convert::FromSpec<MutablePrimitiveArray<%s>>>::from_spec(%s)' % (t, t, e)
+        else:
+            conv = lambda e, t=f.ty: '<%s as vstd::std_specs::convert::FromSpec<mutable::%s>>::from_spec(%s)' % (t, t, e)
+        if f.opt:
+            parts.append((f.name, 'match m.%s { Some(c) => Some(%s), None => None }' % (f.name, conv('c'))))
+        else:
+            parts.append((f.name, conv('m.%s' % f.name)))
+    if parts and parts[0][0].isdigit():
+        w('\t\t%s(%s)' % (s, ', '.join(e for _, e in parts)))
+    else:
+        w('\t\t%s { %s }' % (s, ', '.join('%s: %s' % (n, e) for n, e in parts)))
+    w('\t}')
+    w('}')
+    return '\n'.join(out)
+
+
+def emit_len_lemmas(layouts):
+    out = []
+    for s in ORDER:
+        out.append('impl %s {' % s)
+        out.append('\tpub proof fn lemma_emit_len(&self, acc: Seq<u8>, i: int, v: Version)')
+        out.append('\t\tensures self.emit(acc, i, v).len() == acc.len() + %s::size_spec(v) /*[%s.emit_len]*/,' % (s, s))
+        out.append('\t{')
+        # call sub-lemmas
+        k = 0
+        prev = 'acc'
+        for f in sorted([f for f in layouts[s]['fields'] if f.kind != 'validity'], key=lambda f: f.off):
+            k += 1
+            if f.kind == 'sub':
+                tgt = 'self.%s' % f.name if not f.opt else 'self.%s->Some_0' % f.name
+                out.append('\t\t%s.lemma_emit_len(%s, i, v);' % (tgt, 'self.emit_prefix_%d(acc, i, v)' % (k - 1) if False else 'arbitrary()') if False else '')
+        out.append('\t}')
+        out.append('}')
+    return '\n'.join(out)
+
+
+def immutable_roundtrip_lemmas(layouts, s):
+    """Per-struct codec inverse (C01): if row i of x holds exactly the values decoded from b at the
+    spec-table offsets, then emitting row i reproduces b's bytes.  Generated proof, checked by Verus."""
+    L = sorted([f for f in layouts[s]['fields'] if f.kind != 'validity'], key=lambda f: f.off)
+    out = []
+    w = out.append
+    w('impl %s {' % s)
+    w('\t// row i of self holds exactly the values that the spec table decodes from b at offset off')
+    w('\tpub open spec fn row_decoded_from(&self, i: int, b: Seq<u8>, off: int, v: Version) -> bool {')
+    for f in L:
+        if f.kind == 'prim':
+            tgt = 'self.%s' % f.name if not f.opt else 'self.%s->Some_0' % f.name
+            c = '%s.values_spec()[i] == be_%s(b, off + %d)' % (tgt, f.ty, f.off)
+        else:
+            tgt = 'self.%s' % f.name if not f.opt else 'self.%s->Some_0' % f.name
+            c = '%s.row_decoded_from(i, b, off + %d, v)' % (tgt, f.off)
+        if f.opt:
+            c = '(%s ==> %s)' % (ge(f.since), c)
+        w('\t\t&&& %s' % c)
+    w('\t\t&&& true')
+    w('\t}')
+    w('\tpub proof fn lemma_emit_reproduces_bytes(&self, acc: Seq<u8>, i: int, b: Seq<u8>, off: int, v: Version)')
+    w('\t\trequires self.row_decoded_from(i, b, off, v), 0 <= off, off + %s::size_spec(v) <= b.len(),' % s)
+    w('\t\tensures self.emit(acc, i, v) == acc + b.subrange(off, off + %s::size_spec(v)) /*[%s.encode_decode_inverse]*/,' % (s, s))
+    w('\t{')
+    w('\t\tlet e0 = off;')
+    w('\t\tlet a0 = acc;')
+    w('\t\tassert(a0 =~= acc + b.subrange(off, e0));')
+    k = 0
+    for f in L:
+        k += 1
+        sz = str(f.size) if f.kind == 'prim' else '%s::size_spec(v)' % f.ty
+        if f.opt:
+            w('\t\tlet e%d = e%d + (if %s { %s } else { 0int });' % (k, k - 1, ge(f.since), sz))
+        else:
+            w('\t\tlet e%d = e%d + %s;' % (k, k - 1, sz))
+        tgt = 'self.%s' % f.name if not f.opt else 'self.%s->Some_0' % f.name
+        if f.kind == 'prim':
+            step = 'a%d + bytes_%s(%s.values_spec()[i])' % (k - 1, f.ty, tgt)
+            proof = 'lemma_bytes_be_%s(b, off + %d);' % (f.ty, f.off)
+        else:
+            step = '%s.emit(a%d, i, v)' % (tgt, k - 1)
+            proof = '%s.lemma_emit_reproduces_bytes(a%d, i, b, off + %d, v);' % (tgt, k - 1, f.off)
+        if f.opt:
+            w('\t\tlet a%d = if %s { %s } else { a%d };' % (k, ge(f.since), step, k - 1))
+            w('\t\tif %s { assert(e%d == off + %d); %s lemma_subrange_append(acc, b, off, e%d, e%d); }' % (ge(f.since), k - 1, f.off, proof, k - 1, k))
+        else:
+            w('\t\tlet a%d = %s;' % (k, step))
+            w('\t\tassert(e%d == off + %d); %s lemma_subrange_append(acc, b, off, e%d, e%d);' % (k - 1, f.off, proof, k - 1, k))
+        w('\t\tassert(a%d == acc + b.subrange(off, e%d));' % (k, k))
+    w('\t\tassert(e%d == off + %s::size_spec(v));' % (k, s))
+    w('\t}')
     w('}')
     return '\n'.join(out)
